@@ -463,10 +463,18 @@ def r8_diag_span(c, facts):
     idx = MF.defs_index(lc)
     le = P.call_blocks(lc, 'Workspace::log_error')
     sp = P.call_blocks(lc, 'Error::span')
-    if not le or not sp:
+    logged = le[0][1]['args'][1] if le else None
+    if logged is None:
+        # `log_error` inlined: the (span, message) pair pushed onto the error list
+        for b, t in P.call_blocks(lc, 'Vec::push'):
+            a = t['args'][1] if len(t['args']) > 1 else None
+            for kind, bi, st in idx.get(a.get('l'), []) if a and 'l' in a else []:
+                if kind == 'assign' and st['rv']['r'] == 'aggr' and st['rv'].get('ak') == 'tuple' and st['rv']['ops'] and 'Span' in (st['rv']['ops'][0].get('ty') or ''):
+                    logged = st['rv']['ops'][0]
+    if logged is None or 'l' not in logged or not sp:
         c.bad(R, 'log_compiler_error:shape', 'log_compiler_error no longer logs err.span()')
         return
-    sl = MF.slice_back(lc, le[0][1]['args'][1]['l'], idx)
+    sl = MF.slice_back(lc, logged['l'], idx)
     names = {P.strip(n).split('::')[-1] for n, _, _ in sl['calls']}
     direct_new = [(b, t) for b, t in P.call_blocks(lc, 'span::Span::new')]
     decomposed = names & {'range', 'locator', 'start', 'end'}
